@@ -42,6 +42,9 @@ struct Flusher {
     delay_us: u64,
     #[serde(default)]
     gap_us: u64,
+    /// issue the requests at a fixed cadence without waiting for the previous one to complete
+    #[serde(default)]
+    fire: bool,
 }
 
 #[derive(Deserialize, Clone, Debug, Default)]
@@ -100,6 +103,9 @@ struct Scenario {
     /// capacity, then the writer is released while ONE more entry is appended; repeated
     #[serde(default)]
     race_rounds: u64,
+    /// race rounds: entries appended beyond the capacity while the writer is stalled (certain displacements)
+    #[serde(default)]
+    race_extra: u64,
     /// log only AppEnd (not AppStart) - for the counting spec on large concurrent runs
     #[serde(default)]
     count_only: bool,
@@ -120,6 +126,25 @@ struct Scenario {
     /// process!), wait for the rate limiter, then append `after_sub` more entries
     #[serde(default)]
     after_sub: u64,
+    /// C01 (rate-limited report): one validation failure, `quiet_ms` without failures, then a
+    /// quick burst of `n` failing entries; a burst shorter than 1 s may see at most 2 reports
+    #[serde(default)]
+    report_burst: Option<ReportBurst>,
+    /// C04: while the writer is stalled, issue this many flush requests (each polled once)
+    #[serde(default)]
+    flush_storm: u64,
+    /// C05: the join handle is dropped by unwinding (its owner panics)
+    #[serde(default)]
+    drop_unwind: bool,
+    /// C05: (forget) a FlushWait is created and kept, never polled, while the last handle is dropped
+    #[serde(default)]
+    hold_unpolled_flush: bool,
+}
+
+#[derive(Deserialize, Clone, Debug)]
+struct ReportBurst {
+    quiet_ms: u64,
+    n: u64,
 }
 
 #[derive(Clone)]
@@ -222,6 +247,10 @@ fn timed_append_ser(q: &Q, p: i64, e: u64, serialize: bool) {
 }
 
 static COUNT_ONLY: AtomicBool = AtomicBool::new(false);
+/// `bq run --global-recorder 1`: a DebuggingRecorder is installed as the process-global metrics
+/// recorder and queues report through `metrics_recorder_global` under their own `sink` label
+static GLOBAL_SNAP: std::sync::OnceLock<metrics_util_020::debugging::Snapshotter> = std::sync::OnceLock::new();
+
 /// a (silent) global tracing subscriber is installed in this process (`bq run --subscriber 1`)
 static SUBSCRIBER: AtomicBool = AtomicBool::new(false);
 
@@ -241,10 +270,22 @@ fn timed_append(q: &Q, p: i64, e: u64) {
     trace::evi("AppEnd", &[("p", p), ("e", e as i64)]);
 }
 
+thread_local! {
+    /// with the global recorder: only counters labelled with this scenario's queue name count
+    static SINK_FILTER: std::cell::RefCell<Option<String>> = const { std::cell::RefCell::new(None) };
+}
+
+fn label_ok(k: &metrics_util_020::CompositeKey) -> bool {
+    SINK_FILTER.with(|f| match &*f.borrow() {
+        None => true,
+        Some(name) => k.key().labels().any(|l| l.key() == "sink" && l.value() == name),
+    })
+}
+
 fn overflow_count(rec: &metrics_util_020::debugging::Snapshotter) -> i64 {
     let mut n = 0i64;
     for (k, _u, _d, v) in rec.snapshot().into_vec() {
-        if k.key().name() == "metrique_queue_overflows" {
+        if k.key().name() == "metrique_queue_overflows" && label_ok(&k) {
             if let metrics_util_020::debugging::DebugValue::Counter(c) = v {
                 n += c as i64;
             }
@@ -257,11 +298,23 @@ fn overflow_count(rec: &metrics_util_020::debugging::Snapshotter) -> i64 {
 /// logged as `DropTimeout` (an event no action of the specification consumes); the stream's
 /// scripted faults are then switched off so that the process can go on.
 fn watched_drop(handle: metrique_writer::sink::BackgroundQueueJoinHandle, ctl: &StreamCtl) {
+    watched_drop_how(handle, ctl, false)
+}
+
+fn watched_drop_how(handle: metrique_writer::sink::BackgroundQueueJoinHandle, ctl: &StreamCtl, unwind: bool) {
     let done = Arc::new((Mutex::new(false), Condvar::new()));
     let d2 = done.clone();
     let t = std::thread::spawn(move || {
         trace::evi("DropStart", &[]);
-        drop(handle);
+        if unwind {
+            // the handle's owner panics: the handle is dropped while this thread unwinds
+            let _ = std::panic::catch_unwind(std::panic::AssertUnwindSafe(move || {
+                let _h = handle;
+                std::panic::resume_unwind(Box::new("verif: unwinding drop"));
+            }));
+        } else {
+            drop(handle);
+        }
         trace::evi("DropEnd", &[]);
         *d2.0.lock().unwrap() = true;
         d2.1.notify_all();
@@ -351,8 +404,8 @@ fn run_race_rounds(sc: &Scenario, q: &Q, ctl: &StreamCtl) {
             ctl.open_all();
             return;
         }
-        // 2. fill the queue to exactly its capacity
-        for _ in 0..cap {
+        // 2. fill the queue to exactly its capacity (+ race_extra certain displacements)
+        for _ in 0..(cap + sc.race_extra) {
             next_id += 1;
             timed_append(q, 1, next_id);
         }
@@ -402,6 +455,9 @@ fn self_metrics(rec: &metrics_util_020::debugging::Snapshotter) -> (i64, i64, i6
     use metrics_util_020::debugging::DebugValue;
     let (mut em, mut io, mut val, mut qlen, mut idle, mut ovf) = (0i64, 0i64, 0i64, 0i64, 0i64, 0i64);
     for (k, _u, _d, v) in rec.snapshot().into_vec() {
+        if !label_ok(&k) {
+            continue;
+        }
         match (k.key().name(), v) {
             ("metrique_metrics_emitted", DebugValue::Counter(c)) => em += c as i64,
             ("metrique_io_errors", DebugValue::Counter(c)) => io += c as i64,
@@ -457,14 +513,23 @@ fn run_scenario(sc: &Scenario) {
         .capacity(sc.cap)
         .flush_interval(Duration::from_micros(sc.flush_us))
         .thread_name(format!("vqw-{}", sc.id));
+    let sink_name = format!("q{}", sc.id);
     let debug_rec = if sc.recorder {
-        let r = Arc::new(metrics_util_020::debugging::DebuggingRecorder::new());
-        let snap = r.snapshotter();
-        builder = builder.metrics_recorder_local::<dyn metrics_024::Recorder, _>(r);
-        Some(snap)
+        if let Some(snap) = GLOBAL_SNAP.get() {
+            builder = builder
+                .metrics_recorder_global::<dyn metrics_024::Recorder>()
+                .metric_name(sink_name.clone());
+            Some(snap.clone())
+        } else {
+            let r = Arc::new(metrics_util_020::debugging::DebuggingRecorder::new());
+            let snap = r.snapshotter();
+            builder = builder.metrics_recorder_local::<dyn metrics_024::Recorder, _>(r);
+            Some(snap)
+        }
     } else {
         None
     };
+    SINK_FILTER.with(|f| *f.borrow_mut() = if GLOBAL_SNAP.get().is_some() { Some(sink_name.clone()) } else { None });
     let (q, handle) = if sc.boxed {
         let (q, h) = builder.build_boxed(ctl.stream());
         (Q::Boxed(q), h)
@@ -517,10 +582,49 @@ fn run_scenario(sc: &Scenario) {
         threads.push(std::thread::spawn(move || {
             start.wait();
             std::thread::sleep(Duration::from_micros(fl.delay_us));
+            if fl.fire {
+                let mut pending: Vec<(i64, metrique_writer::sink::FlushWait, Arc<FlushWaker>)> = Vec::new();
+                for _ in 0..fl.count {
+                    let f = fcount.fetch_add(1, Ordering::SeqCst) + 1;
+                    trace::evi("FlushReq", &[("f", f)]);
+                    let mut fut = q.flush_async();
+                    let w = Arc::new(FlushWaker { f, logged: AtomicBool::new(false), woke: Mutex::new(false), cv: Condvar::new() });
+                    let waker = Waker::from(w.clone());
+                    let mut cx = Context::from_waker(&waker);
+                    if let Poll::Ready(()) = Pin::new(&mut fut).poll(&mut cx) {
+                        w.log_done();
+                    }
+                    pending.push((f, fut, w));
+                    let t0 = Instant::now();
+                    while t0.elapsed() < Duration::from_micros(fl.gap_us) {
+                        std::hint::spin_loop();
+                    }
+                }
+                for (f, mut fut, w) in pending {
+                    let waker = Waker::from(w.clone());
+                    let mut cx = Context::from_waker(&waker);
+                    let deadline = Instant::now() + BUDGET;
+                    loop {
+                        if w.logged.load(Ordering::SeqCst) {
+                            break;
+                        }
+                        if let Poll::Ready(()) = Pin::new(&mut fut).poll(&mut cx) {
+                            w.log_done();
+                            break;
+                        }
+                        if Instant::now() >= deadline {
+                            trace::evi("FlushTimeout", &[("f", f)]);
+                            break;
+                        }
+                        std::thread::sleep(Duration::from_micros(200));
+                    }
+                }
+            } else {
             for _ in 0..fl.count {
                 let f = fcount.fetch_add(1, Ordering::SeqCst) + 1;
                 do_flush(&q, f);
                 std::thread::sleep(Duration::from_micros(fl.gap_us));
+            }
             }
             // flusher handles are not counted as sinks in the trace: they are dropped before
             // the scenario's end phase begins (joined below)
@@ -580,8 +684,55 @@ fn run_scenario(sc: &Scenario) {
             ctl.open_all();
         }
     }
+    let mut storm: Vec<(i64, metrique_writer::sink::FlushWait, Arc<FlushWaker>)> = Vec::new();
+    for i in 0..sc.flush_storm {
+        // the writer is stalled: none of these may complete now
+        let f = 100_000 + i as i64;
+        trace::evi("FlushReq", &[("f", f)]);
+        let mut fut = q.flush_async();
+        let w = Arc::new(FlushWaker { f, logged: AtomicBool::new(false), woke: Mutex::new(false), cv: Condvar::new() });
+        let waker = Waker::from(w.clone());
+        let mut cx = Context::from_waker(&waker);
+        if let Poll::Ready(()) = Pin::new(&mut fut).poll(&mut cx) {
+            w.log_done();
+        }
+        storm.push((f, fut, w));
+    }
     if stall_id.is_some() && sc.hold_stall_ms == 0 {
         ctl.open_all();
+    }
+    for (f, mut fut, w) in storm {
+        let waker = Waker::from(w.clone());
+        let mut cx = Context::from_waker(&waker);
+        let deadline = Instant::now() + BUDGET;
+        loop {
+            if w.logged.load(Ordering::SeqCst) {
+                break;
+            }
+            if let Poll::Ready(()) = Pin::new(&mut fut).poll(&mut cx) {
+                w.log_done();
+                break;
+            }
+            if Instant::now() >= deadline {
+                trace::evi("FlushTimeout", &[("f", f)]);
+                break;
+            }
+            std::thread::sleep(Duration::from_micros(200));
+        }
+    }
+    if let Some(rb) = &sc.report_burst {
+        // one failure, a quiet period, then a burst: the in-band report is rate limited
+        timed_append(&q, 7, 70001);
+        do_flush(&q, 700);
+        std::thread::sleep(Duration::from_millis(rb.quiet_ms));
+        trace::evi("BurstBegin", &[]);
+        let t0 = Instant::now();
+        for i in 0..rb.n {
+            timed_append(&q, 7, 70002 + i);
+        }
+        do_flush(&q, 701);
+        let short = t0.elapsed() < Duration::from_millis(900);
+        trace::evi("BurstEnd", &[("short", if short { 1 } else { 0 })]);
     }
     if sc.hold_stall_ms > 0 {
         // the stream stays stalled while the handle is dropped (below); released by a timer
@@ -614,7 +765,7 @@ fn run_scenario(sc: &Scenario) {
     let next_f = |fcount: &std::sync::atomic::AtomicI64| fcount.fetch_add(1, Ordering::SeqCst) + 1;
     match sc.end.as_str() {
         "drop" => {
-            watched_drop(handle, &ctl);
+            watched_drop_how(handle, &ctl, sc.drop_unwind);
             for i in 1..=sc.late_appends {
                 timed_append(&q, 9, 90000 + i);
             }
@@ -644,6 +795,8 @@ fn run_scenario(sc: &Scenario) {
             handle.forget();
             trace::evi("Forget", &[]);
             do_flush(&q, next_f(&fcount));
+            // a flush future that is created but never polled is not a queue handle
+            let _held_unpolled = if sc.hold_unpolled_flush { Some(q.flush_async()) } else { None };
             drop(q);
             trace::evi("SinkDrop", &[("p", 0)]);
             if !ctl.wait_closed(BUDGET) {
@@ -692,6 +845,12 @@ fn annotate_ranks(evs: &mut [Value]) {
 }
 
 fn cmd_run(a: &HashMap<String, String>) {
+    if util::arg_u64(a, "global-recorder", 0) == 1 {
+        let r = metrics_util_020::debugging::DebuggingRecorder::new();
+        let snap = r.snapshotter();
+        metrics_024::set_global_recorder(r).expect("global recorder");
+        let _ = GLOBAL_SNAP.set(snap);
+    }
     if util::arg_u64(a, "subscriber", 0) == 1 {
         // any subscriber other than NoSubscriber; its output goes nowhere
         tracing_subscriber::fmt()
